@@ -99,18 +99,26 @@ func judge(sc *scenario, ref *c20.Reference, names []string, ex *vs.Exec, o c20.
 	return "", ""
 }
 
+// progress of one scenario across the passes
+type scProgress struct {
+	sc       *scenario
+	ref      *c20.Reference
+	names    []string
+	violated bool
+	done     map[vs.Granularity]int // highest completed preemption bound
+	states   map[vs.Granularity]map[uint64]struct{}
+	cut      map[vs.Granularity]bool
+}
+
 func run(c *vc.Ctx) {
 	e, err := newEnv(true)
 	if err != nil {
 		c.HarnessError("set-up: %v", err)
 		return
 	}
-	ti := 0
-	if c.Thorough() {
-		ti = 1
-	}
 	only := os.Getenv("C20_ONLY") // debugging aid: comma separated scenario ids
 	var scInfo []map[string]any
+	var progs []*scProgress
 	for _, sc := range scenarios() {
 		if only != "" && !strings.Contains(","+only+",", ","+sc.id+",") {
 			continue
@@ -120,123 +128,160 @@ func run(c *vc.Ctx) {
 			c.HarnessError("%v", err)
 			continue
 		}
-		info := map[string]any{"id": sc.id, "title": sc.title, "threads": names, "sequential_orders_distinct_outcomes": len(ref.ByKey),
-			"sequential_outcomes": legend, "preemption_bound_sync": sc.syncBound[ti], "preemption_bound_stmt": sc.stmtBound[ti]}
-		scInfo = append(scInfo, info)
-		violated := false
-		for _, gran := range []vs.Granularity{vs.GranSync, vs.GranStmt} {
-			if violated {
-				break
-			}
-			maxB := sc.syncBound[ti]
-			if gran == vs.GranStmt {
-				maxB = sc.stmtBound[ti]
-			}
-			sec := fmt.Sprintf("%s %s-granularity schedules", sc.id, gran)
-			secOut := fmt.Sprintf("%s observed outcomes", sc.id)
-			secCont := fmt.Sprintf("%s contention", sc.id)
-			states := map[uint64]struct{}{}
-			done := -1
-			for B := 0; B <= maxB && !violated; B++ {
-				var lastO c20.Outcome
-				var lastInst *instance
-				k := 0
-				mine := func() bool { k++; return (k-1)%c.NShards == c.Shard }
-				nexec := 0
-				st := vs.Explore(B, func(prefix []int, expect []uint32) *vs.Exec {
-					var ex *vs.Exec
-					ex, lastO, lastInst = e.runScheduled(sc, gran, prefix, expect, true)
-					return ex
-				}, func(prefix []int, ex *vs.Exec, shared bool) bool {
-					if ex.Diverged != "" {
-						c.HarnessError("%s %s schedule %v: %s", sc.id, gran, prefix, ex.Diverged)
-						return false
-					}
-					if ex.Overrun {
-						c.HarnessError("%s %s schedule %v: step horizon exceeded (livelock?)", sc.id, gran, prefix)
-						return false
-					}
-					c.AddTraces(1)
-					c.AddTrans(ex.Steps)
-					// executions with fewer preemptions were judged in the previous layer; the preemption-free
-					// executions are run by every worker and judged by worker 0
-					if ex.Preemptions != B || (shared && c.Shard != 0) {
-						return !c.Expired()
-					}
-					nexec++
-					if len(states) < 2_000_000 {
-						for _, sk := range ex.StateKeys {
-							states[sk] = struct{}{}
-						}
-					}
-					// periodic determinism self-check: the same schedule again must give the same trace and outcome
-					if nexec%64 == 1 {
-						ex2, o2, _ := e.runScheduled(sc, gran, ex.Choices(), ex.Sigs(), false)
-						if ex2.TraceHash != ex.TraceHash || o2.Key() != lastO.Key() || ex2.Diverged != "" {
-							c.HarnessError("%s %s schedule %v is not reproducible: %s", sc.id, gran, ex.Trimmed(), ex2.Diverged)
-							return false
-						}
-					}
-					c.Outcome(sec, fmt.Sprintf("preemptions=%d", ex.Preemptions))
-					key, what := judge(sc, ref, names, ex, lastO, lastInst)
-					label := "VIOLATION " + key
-					if key == "" {
-						label = "as sequential order " + ref.LabelOf[lastO.Key()]
-					}
-					c.Outcome(secOut, label)
-					if ex.Contended > 0 {
-						c.Outcome(secCont, "some thread had to wait for a lock / a running Once held by another thread")
-					} else {
-						c.Outcome(secCont, "no thread ever waited")
-					}
-					c.Distinct(fmt.Sprintf("%s|%s|%d|%s", sc.id, gran, ex.Preemptions, lastO.Key()))
-					if key != "" {
-						violated = true
-						rc := replayCase{sc.id, gran.String(), ex.Trimmed()}
-						what = fmt.Sprintf("%s. Scenario %s (%s), %s granularity, %d preemption(s), schedule %v: %s Outcome: {%s}",
-							what, sc.id, sc.title, gran, ex.Preemptions, ex.Trimmed(), ex.Describe(6), lastO.Key())
-						c.Violation(sec, key, what, rc, func() bool {
-							ex3, o3, i3 := e.runScheduled(sc, gran, rc.Prefix, nil, false)
-							k3, _ := judge(sc, ref, names, ex3, o3, i3)
-							return k3 == key
-						})
-						c.Sample(map[string]any{"scenario": sc.id, "granularity": gran.String(), "schedule": ex.Trimmed(), "switches": ex.Describe(6), "verdict": key})
-						return false
-					}
-					if nexec == 1 && B == maxB {
-						c.Sample(map[string]any{"scenario": sc.id, "granularity": gran.String(), "schedule": ex.Trimmed(), "switches": ex.Describe(4),
-							"choice_points": len(ex.Points), "scheduling_points": ex.Steps, "statement_markers_passed": ex.Stmts, "outcome": label})
-					}
-					return !c.Expired()
-				}, mine)
-				if st.Stopped {
-					if !violated {
-						c.SecNotExhaustive(sec, fmt.Sprintf("deadline while exploring preemption bound %d (bounds 0..%d complete)", B, done))
-					}
-					break
-				}
-				done = B
-			}
-			c.AddStates(int64(len(states)))
-			if violated {
-				c.SecBound(sec, "stopped at the first violation")
-				c.SecNotExhaustive(sec, "stopped at the first violation of this scenario")
-			} else {
-				c.SecBound(sec, fmt.Sprintf("all schedules with <= %d preemptions (requested bound %d)", done, maxB))
-			}
-			if c.Expired() {
-				break
-			}
+		ti := 0
+		if c.Thorough() {
+			ti = 1
 		}
-		if c.Expired() {
-			c.Cap("deadline reached in scenario " + sc.id + "; later scenarios were not explored")
-			break
-		}
+		scInfo = append(scInfo, map[string]any{"id": sc.id, "title": sc.title, "threads": names, "sequential_orders_distinct_outcomes": len(ref.ByKey),
+			"sequential_outcomes": legend, "preemption_bound_sync": sc.syncBound[ti], "preemption_bound_stmt": sc.stmtBound[ti]})
+		progs = append(progs, &scProgress{sc: sc, ref: ref, names: names, done: map[vs.Granularity]int{vs.GranSync: -1, vs.GranStmt: -1},
+			states: map[vs.Granularity]map[uint64]struct{}{vs.GranSync: {}, vs.GranStmt: {}}, cut: map[vs.Granularity]bool{}})
 	}
 	c.Extra("scenarios", scInfo)
+	// pass 0: every scenario up to its quick bounds. pass 1 (thorough only): the additional layers, so that a
+	// deadline can only ever cut the deepest layers.
+	passes := 1
+	if c.Thorough() {
+		passes = 2
+	}
+	grans := []vs.Granularity{vs.GranSync, vs.GranStmt}
+	expired := false
+	for pass := 0; pass < passes && !expired; pass++ {
+		for _, p := range progs {
+			for _, gran := range grans {
+				b := p.sc.syncBound
+				if gran == vs.GranStmt {
+					b = p.sc.stmtBound
+				}
+				lo, hi := 0, b[0]
+				if pass == 1 {
+					lo, hi = b[0]+1, b[1]
+				}
+				for B := lo; B <= hi && !p.violated && !expired && !p.cut[gran]; B++ {
+					if !exploreLayer(c, e, p, gran, B, hi) {
+						if c.Expired() {
+							expired = true
+						}
+						break
+					}
+					p.done[gran] = B
+				}
+			}
+		}
+	}
+	for _, p := range progs {
+		for _, gran := range grans {
+			sec := fmt.Sprintf("%s %s-granularity schedules", p.sc.id, gran)
+			c.AddStates(int64(len(p.states[gran])))
+			b := p.sc.syncBound
+			if gran == vs.GranStmt {
+				b = p.sc.stmtBound
+			}
+			want := b[0]
+			if c.Thorough() {
+				want = b[1]
+			}
+			switch {
+			case p.violated:
+				c.SecBound(sec, "stopped at the first violation of this scenario")
+				c.SecNotExhaustive(sec, "stopped at the first violation of this scenario")
+			case p.done[gran] < want:
+				c.SecBound(sec, fmt.Sprintf("all schedules with <= %d preemptions (requested bound %d: deadline)", p.done[gran], want))
+				c.SecNotExhaustive(sec, fmt.Sprintf("deadline: preemption bounds 0..%d complete, requested %d", p.done[gran], want))
+			default:
+				c.SecBound(sec, fmt.Sprintf("all schedules with <= %d preemptions", p.done[gran]))
+			}
+		}
+	}
 	if c.Shard == 0 {
 		recordRacePass(c)
 	}
+}
+
+// exploreLayer executes every schedule of the scenario with at most B preemptions at the given granularity and
+// judges those with exactly B (the others were judged in earlier layers). It returns false if the layer
+// was not completed (violation, deadline, harness error).
+func exploreLayer(c *vc.Ctx, e *env, p *scProgress, gran vs.Granularity, B, maxB int) bool {
+	sc, ref, names := p.sc, p.ref, p.names
+	sec := fmt.Sprintf("%s %s-granularity schedules", sc.id, gran)
+	secOut := fmt.Sprintf("%s observed outcomes", sc.id)
+	secCont := fmt.Sprintf("%s contention", sc.id)
+	states := p.states[gran]
+	var lastO c20.Outcome
+	var lastInst *instance
+	k := 0
+	mine := func() bool { k++; return (k-1)%c.NShards == c.Shard }
+	nexec := 0
+	st := vs.Explore(B, func(prefix []int, expect []uint32) *vs.Exec {
+		var ex *vs.Exec
+		ex, lastO, lastInst = e.runScheduled(sc, gran, prefix, expect, true)
+		return ex
+	}, func(prefix []int, ex *vs.Exec, shared bool) bool {
+		if ex.Diverged != "" {
+			c.HarnessError("%s %s schedule %v: %s", sc.id, gran, prefix, ex.Diverged)
+			p.cut[gran] = true
+			return false
+		}
+		if ex.Overrun {
+			c.HarnessError("%s %s schedule %v: step horizon exceeded (livelock?)", sc.id, gran, prefix)
+			p.cut[gran] = true
+			return false
+		}
+		c.AddTraces(1)
+		c.AddTrans(ex.Steps)
+		// executions with fewer preemptions were judged in the previous layer; the preemption-free
+		// executions are run by every worker and judged by worker 0
+		if ex.Preemptions != B || (shared && c.Shard != 0) {
+			return !c.Expired()
+		}
+		nexec++
+		if len(states) < 2_000_000 {
+			for _, sk := range ex.StateKeys {
+				states[sk] = struct{}{}
+			}
+		}
+		// periodic determinism self-check: the same schedule again must give the same trace and outcome
+		if nexec%64 == 1 {
+			ex2, o2, _ := e.runScheduled(sc, gran, ex.Choices(), ex.Sigs(), false)
+			if ex2.TraceHash != ex.TraceHash || o2.Key() != lastO.Key() || ex2.Diverged != "" {
+				c.HarnessError("%s %s schedule %v is not reproducible: %s", sc.id, gran, ex.Trimmed(), ex2.Diverged)
+				p.cut[gran] = true
+				return false
+			}
+		}
+		c.Outcome(sec, fmt.Sprintf("preemptions=%d", ex.Preemptions))
+		key, what := judge(sc, ref, names, ex, lastO, lastInst)
+		label := "VIOLATION " + key
+		if key == "" {
+			label = "as sequential order " + ref.LabelOf[lastO.Key()]
+		}
+		c.Outcome(secOut, label)
+		if ex.Contended > 0 {
+			c.Outcome(secCont, "some thread had to wait for a lock / a running Once held by another thread")
+		} else {
+			c.Outcome(secCont, "no thread ever waited")
+		}
+		c.Distinct(fmt.Sprintf("%s|%s|%d|%s", sc.id, gran, ex.Preemptions, lastO.Key()))
+		if key != "" {
+			p.violated = true
+			rc := replayCase{sc.id, gran.String(), ex.Trimmed()}
+			what = fmt.Sprintf("%s Scenario %s (%s), %s granularity, %d preemption(s), schedule %v: %s Outcome: {%s}",
+				what, sc.id, sc.title, gran, ex.Preemptions, ex.Trimmed(), ex.Describe(6), lastO.Key())
+			c.Violation(sec, key, what, rc, func() bool {
+				ex3, o3, i3 := e.runScheduled(sc, gran, rc.Prefix, nil, false)
+				k3, _ := judge(sc, ref, names, ex3, o3, i3)
+				return k3 == key
+			})
+			c.Sample(map[string]any{"scenario": sc.id, "granularity": gran.String(), "schedule": ex.Trimmed(), "switches": ex.Describe(6), "verdict": key})
+			return false
+		}
+		if nexec == 1 && B == maxB {
+			c.Sample(map[string]any{"scenario": sc.id, "granularity": gran.String(), "schedule": ex.Trimmed(), "switches": ex.Describe(4),
+				"choice_points": len(ex.Points), "scheduling_points": ex.Steps, "statement_markers_passed": ex.Stmts, "outcome": label})
+		}
+		return !c.Expired()
+	}, mine)
+	return !st.Stopped
 }
 
 func replay(c *vc.Ctx, raw json.RawMessage) string {
